@@ -162,7 +162,7 @@ func runInCtx(r *core.Run) {
 		r.Check(ok, fmt.Sprintf("%s #%d with [In] set", k, count[k]), s.in.Pos(), "",
 			"the inside of a bracketed construct is parsed on a path where the parser's [In] flag has not been set to true: inside a `for` head (where [In] is cleared) a valid `in` operator between these brackets, e.g. for(x = a?.[b in c];;), is rejected")
 	}
-	r.Floor("bracketed parse sites", len(sites), 8)
+	r.Floor("bracketed parse sites", len(sites), 6)
 }
 
 // calleeSetsIn: the callee stores true to the [In] field before its first call of parseExpression.
